@@ -8,8 +8,12 @@ open Tyme Tyme.Driver Tyme.Term
 
 def E : Eph := fastEph
 
+/-- `extra=y1,y2,...`: years the check adds to the sample (term instants within seconds of midnight or noon in this run's dump) -/
+def extraYear (y : Int) (args : List String) : Bool :=
+  args.any fun a => a.startsWith "extra=" && ((a.drop 6).toString.splitOn ",").contains (toString y)
+
 def yearSelected (y : Int) (args : List String) : Bool :=
-  args.head? == some "all" || y ≤ 300 || y % 10 == 0 || y ≥ 9997 || (1575 ≤ y && y ≤ 1590)
+  args.head? == some "all" || y ≤ 300 || y % 10 == 0 || y ≥ 9997 || (1575 ≤ y && y ≤ 1590) || extraYear y args
 
 def fmtG (g : Nat) : String := let t := ofGidx g; s!"{t.1} {t.2}"
 
